@@ -29,6 +29,8 @@ META = {
                    'thorough': 'all boolean tables <= 3x3, 3x4, 4x3, 4x4 x all object subsets'},
     'assumptions': ['order inside the neighbor tuples and order of neighbors() output are not judged here (C06)'],
 }
+META['rule'] += (' BIGLAT: additionally the Boolean lattice of 16 384 concepts (contranominal scale 14) in the quick '
+                 'tier and those of 32 768 and 65 536 concepts in the thorough tier.')
 
 
 def judge_structure(lat, cap, origin):
@@ -185,7 +187,7 @@ def cases(tier, seed, spec):
     # > 10 000 objects with a tiny lattice: only a handful of neighbors() calls are affordable
     yield from (dict(c, few_calls=True) for c in gen.huge(seed, 8 if tier == 'quick' else 32)
                 if c['fam'].endswith('tall') and len(c['objects']) > 10000)
-    yield from gen.biglat(tier)
+    yield from gen.biglat(tier, quick_sizes=(14,))
     yield from gen.ctx_stream(tier, seed)
 
 
